@@ -32,7 +32,7 @@ def opaque_math(name, t):
     return nnmod.apply_elem(name, t)
 
 
-def am_job(job_id, env_name="tsp", n=3, norm="batch", compositions=("XY", "YX", "XXY"), steps=None, train_mode=False, num_starts=0, source_filter=None):
+def am_job(job_id, env_name="tsp", n=3, norm="batch", compositions=("XY", "YX", "XXY"), steps=None, train_mode=False, num_starts=0, variant=None, source_filter=None):
     E = explore.EXP
     ctx = core.Ctx(job_id)
     w = world.make_world(source_filter=source_filter)
@@ -40,34 +40,34 @@ def am_job(job_id, env_name="tsp", n=3, norm="batch", compositions=("XY", "YX", 
     old = (T.SOFTMAX_HOOK, T.MATH_HOOK, T.MUL_HOOK)
     T.SOFTMAX_HOOK, T.MATH_HOOK, T.MUL_HOOK = opaque_softmax, opaque_math, nnmod.opaque_mul
     SC.OPAQUE_MUL[0] = True
-    ctx.bounds = {"policy": "AttentionModelPolicy", "env": env_name, "n": n, "num_starts": num_starts, "normalization": norm, "embed_dim": 8, "heads": 1, "layers": 1, "compositions": list(compositions)}
+    ctx.bounds = {"policy": "AttentionModelPolicy", "env": env_name, "variant": variant, "n": n, "num_starts": num_starts, "normalization": norm, "embed_dim": 8, "heads": 1, "layers": 1, "compositions": list(compositions)}
     ctx.stubs.update(["nn.Linear / norm layers (eval mode) / scaled_dot_product_attention / softmax / activations: uninterpreted functions on the documented slice",
                       "parameters: opaque constants; symbolic*symbolic: commutative uninterpreted function"])
     ctx.assumptions.add("policy in eval mode (as in inference); forced action prefixes (symbolic actions, identical for X in every composition)")
 
     def cexb(E_, neg):
         return [{"kind": "script", "path": core.ROOT + "/vf/torch_side", "module": "am_side", "func": "run_am", "model_kind": "plain", "mode": "C14",
-                 "params": {"env": env_name, "n": n, "norm": norm, "train_mode": train_mode, "num_starts": num_starts}}]
+                 "params": {"env": env_name, "n": n, "norm": norm, "train_mode": train_mode, "num_starts": num_starts, "variant": variant}}]
 
     try:
         pol = w.load("rl4co.models.zoo.am.policy")
         ops = w.load("rl4co.utils.ops")
-        env = sp.make_env(w, n, None)
+        env = sp.make_env(w, n, variant)
         nnmod.reset_ids()
         policy = pol.AttentionModelPolicy(env_name=env_name, embed_dim=8, num_heads=1, num_encoder_layers=1, feedforward_hidden=8, normalization=norm)
         if train_mode:
             policy.train()
         else:
             policy.eval()
-        Tn = steps or min(sp.bound(n, None), n + 1)
+        Tn = steps or min(sp.bound(n, variant), n + 1)
 
         def harness():
             src = EV.Src(E, ctx)
-            inst = sp.instance(src, 2, n, None)  # rows: X (0), Y (1)
+            inst = sp.instance(src, 2, n, variant)  # rows: X (0), Y (1); MTVRP 'mix:a/b': X of variant a next to Y of variant b
             S = max(num_starts, 1)
             # forced actions per (step, start, instance): identical for X in every batch composition
             acts = [[[z3.Int(f"ax_{t}_{s_}"), z3.Int(f"ay_{t}_{s_}")] for s_ in range(S)] for t in range(Tn + 1)]
-            NA = sp.n_actions(n, None)
+            NA = sp.n_actions(n, variant)
             for step_ in acts:
                 for row in step_:
                     for a in row:
